@@ -144,3 +144,8 @@ pub const W6: &str = "id: w6\nsteps:\n  - id: s1\n    acts:\n      - uses: acts.
 
 /// a sequential step followed by a step with a parked (`needs`) branch and an `else` branch
 pub const W7: &str = "id: w7\nsteps:\n  - id: s1\n    acts:\n      - uses: acts.core.irq\n        key: a1\n  - id: s2\n    branches:\n      - id: b1\n        if: \"true\"\n        steps:\n          - id: s21\n            acts:\n              - uses: acts.core.irq\n                key: a2\n      - id: b2\n        needs: [b1]\n        steps:\n          - id: s22\n            acts:\n              - uses: acts.core.irq\n                key: a3\n      - id: b3\n        else: true\n        steps:\n          - id: s23\n  - id: s3\n";
+
+/// env declared in the model / env written by a script / a value that propagates to the root data
+pub const WE1: &str = "id: we1\nenv:\n  e1: 5\nsteps:\n  - id: s1\n    acts:\n      - uses: acts.core.irq\n        key: a1\n  - id: s2\n";
+pub const WE2: &str = "id: we2\nsteps:\n  - id: s1\n    acts:\n      - uses: acts.transform.code\n        params: \"$env.e2 = 7;\"\n      - uses: acts.core.irq\n        key: a1\n  - id: s2\n    acts:\n      - uses: acts.core.irq\n        key: a2\n";
+pub const WD1: &str = "id: wd1\ninputs:\n  x: 0\nsteps:\n  - id: s1\n    acts:\n      - uses: acts.transform.set\n        params:\n          x: 7\n      - uses: acts.core.irq\n        key: a1\n  - id: s2\n    acts:\n      - uses: acts.core.irq\n        key: a2\n";
